@@ -462,6 +462,12 @@ class Eval:
             # addresses of objects are never null
             if op == "alloca":
                 return ("nin", frozenset([0]))
+            if len(d.get("path", ())) == 1 and d["path"][0].startswith("[") and d.get("elsize"):
+                # pointer arithmetic on a pointer whose value is given for this evaluation (buf + done)
+                b = self.val(d["base"], depth - 1)
+                ix = self.val(d["path"][0][1:-1], depth - 1)
+                if b is not None and ix is not None and b[0] == "in" and ix[0] == "in" and len(b[1]) * len(ix[1]) <= MAXSET:
+                    return ("in", frozenset(x + y * d["elsize"] for x in b[1] for y in ix[1]))
             return None
         return None
 
